@@ -289,7 +289,7 @@ let rec split_byp = function
   | "BYP" :: rest -> ([], Some rest)
   | x :: rest -> let (a, b) = split_byp rest in (x :: a, b)
 
-let rec oracle touch cap has_enf (prefix : symop list) (ops : symop array) ?(all_blocked = false) (outs : string list) : string =
+let rec oracle touch cap has_enf (prefix : symop list) (ops : symop array) ?(all_blocked = false) ?init (outs : string list) : string =
   let n = Array.length ops in
   let (outs, byp) = split_byp outs in
   match byp with
@@ -318,7 +318,9 @@ let rec oracle touch cap has_enf (prefix : symop list) (ops : symop array) ?(all
         let ivs = List.map (fun e -> match String.split_on_char '-' e with
             | [a; b] -> (int_of_string a, int_of_string b) | _ -> (0, 0)) (String.split_on_char ',' iv) in
         (* initial specification state: the prefix run sequentially *)
-        let s0 = List.fold_left (fun s o -> fst (spec_exec touch cap s o true)) [] prefix in
+        let s0 = match init with
+          | Some s -> s
+          | None -> List.fold_left (fun s o -> fst (spec_exec touch cap s o true)) [] prefix in
         (* a walk must report every mailbox that holds mail during the whole walk: non-empty after the
            prefix and not the target of any concurrent removal / purge (no cap in force) *)
         let stable mb =
@@ -432,6 +434,32 @@ let eval_mode () =
            let verdict = oracle false 0 false prefix ops ~all_blocked outs in
            print_string (String.concat " || " alts); print_string " ## "; print_string verdict; print_char '\n')
     with
+    | Not_found when (let (k, _, _) = Mlutil.split_case line in k = "burst") ->
+        (* free-running mini-histories: each round is judged by the linearizability oracle (extracted seq_exec) *)
+        let (_, ins, outs) = Mlutil.split_case line in
+        let touch = (match ins with "mem" :: _ -> true | _ -> false) in
+        let store_of_listing (l : string) : sstore =
+          let fresh = ref 1000000 in
+          List.filter_map (fun e -> match String.split_on_char '=' e with
+              | [mb; v] ->
+                  let msgs = if v = "" then [] else List.map (fun x -> match String.split_on_char '.' x with
+                      | [t; sn] -> incr fresh; { m_tag = n_of_int (int_of_string t); m_id = n_of_int !fresh; m_size = n_of_int 10; m_seen = (sn = "1") }
+                      | _ -> failwith "bad view") (String.split_on_char '+' v) in
+                  Some (n_of_int (int_of_string mb), { b_last = n_of_int 2000000; b_first = N0; b_msgs = msgs })
+              | _ -> None) (String.split_on_char ';' l) in
+        let verdict = ref "ok" in
+        List.iteri (fun k tok ->
+            if !verdict = "ok" then
+              match String.split_on_char '|' tok with
+              | [init; opss; flags; iv; rs; final] ->
+                  (try
+                    let ops = Array.of_list (parse_ops opss) in
+                    let v = oracle touch 0 false [] ops ~init:(store_of_listing init)
+                        (["fin"; flags; iv] @ String.split_on_char ',' rs @ [final; "ids=ok"]) in
+                    if v <> "ok" then verdict := Printf.sprintf "%s@round%d:%s" v k (String.map (fun c -> if c = ' ' then '_' else c) tok)
+                  with _ -> verdict := Printf.sprintf "fail:malformed-round%d" k)
+              | _ -> if tok <> "" then verdict := Printf.sprintf "fail:malformed-round%d" k) outs;
+        Mlutil.print_model outs !verdict
     | Not_found when (let (k, _, _) = Mlutil.split_case line in k = "stress") ->
         (* free-running stress: the driver checked the history; the only acceptable observation is "ok" *)
         let (_, _, outs) = Mlutil.split_case line in
@@ -459,7 +487,9 @@ let enum_mode per_full per_probe pb seed =
            let st = mem_init cap maxkb prefix ops in gen mem_machine (fresh mem_machine st ops) ops)
         (fun g prefix ops _ _ ->
            let st = file_init g prefix ops in gen file_machine (fresh file_machine st ops) ops)
-    with Not_found | Failure _ -> ())
+    with
+    | Not_found -> print_string line; print_char '\n'      (* stress / burst lines carry no schedule *)
+    | Failure _ -> ())
 
 let () =
   match Array.to_list Sys.argv with
